@@ -90,6 +90,23 @@ def run_shard(rec, tier, seed, shard, nshards):
             rec.check(dab == dba, "C07/metric/asymmetric", "d(a,b)=%r d(b,a)=%r" % (dab, dba), {"a": a, "b": b})
             rec.check(dab >= 0, "C07/metric/negative", "d(a,b)=%r" % dab, {"a": a, "b": b})
             rec.check(daa == 0, "C07/metric/nonzero-on-identical", "d(a,a)=%r" % daa, {"a": a})
+            # predictions that agree to many digits without being identical (neighbouring samples of a slowly moving
+            # chain, a coefficient that touches few experiments): still non-negative, still the mean squared difference
+            level = float(rng.choice([0.0, 1.0, 7.5, -30.0]))
+            a2 = a + level
+            step = float(rng.choice([1e-9, 1e-8, 1e-6, 1e-4]))
+            b2 = a2 + step * (rng.normal(size=k) if rng.random() < 0.5 else (np.arange(k) == int(rng.integers(k))) * 1.0)
+            for x, y in ((a2, b2), (a, b)):
+                d = float(m.distance(x, y))
+                from scipy.special import expit as _expit
+                import math as _math
+
+                px, py = (_expit(x), _expit(y)) if sig else (x, y)
+                want = _math.fsum(float(u - v) ** 2 for u, v in zip(px, py)) / len(px)
+                rec.count("metric_values_vs_definition")
+                rec.check(d >= 0, "C07/metric/negative", "d(a,b)=%r for predictions that differ by about %g" % (d, step), {"a": x, "b": y})
+                rec.check(d == float(m.distance(y, x)), "C07/metric/asymmetric", "d(a,b) != d(b,a) for nearly equal predictions", {"a": x, "b": y})
+                rec.check(abs(d - want) <= 1e-9 * want, "C07/metric/not-the-mean-squared-difference", lambda: "MSEDistance(sigmoid=%s) of two prediction vectors is %r, their mean squared difference is %r" % (sig, d, want), {"a": x, "b": y})
 
     # ---------------- assembly
     n_asm = 60 if tier == "quick" else 240
@@ -110,6 +127,14 @@ def run_shard(rec, tier, seed, shard, nshards):
                 base = [rng.normal(size=screen.size) for _ in range(max(1, n // 2))]
                 # identical pairs -> distance exactly 0
                 thetas = [StubTheta(base[int(rng.integers(len(base)))] if rng.random() < 0.4 else rng.normal(size=screen.size), i) for i in range(n)]
+                if rng.random() < 0.3 and n:
+                    # a slowly moving chain: every sample a tiny step away from its predecessor
+                    cur = rng.normal(size=screen.size) + float(rng.choice([0.0, 3.0]))
+                    thetas = []
+                    for i in range(n):
+                        cur = cur + float(rng.choice([1e-9, 1e-8, 1e-6])) * rng.normal(size=screen.size)
+                        thetas.append(StubTheta(cur.copy(), i))
+                    rec.count("slow_chain_matrices")
             holder = ThetaHolder(n_thetas=n)
             for th in thetas:
                 holder.add_theta(th)
@@ -136,6 +161,7 @@ def run_shard(rec, tier, seed, shard, nshards):
                     v = real_metric.distance(thetas[i].predict_viability(screen), thetas[j].predict_viability(screen))
                     ref[i, j] = ref[j, i] = v
             rec.check(kit.bytes_equal(dense1, ref), "C07/assembly/entry-not-metric", "single-chunk dense matrix differs from metric(pred_i,pred_j)", w)
+            rec.check(bool(np.all(dense1 >= 0)), "C07/metric/negative", lambda: "the dense matrix has negative entries (min %r)" % float(dense1.min()), w)
             rec.check(bool(np.all(np.diag(dense1) == 0)) and kit.bytes_equal(dense1, dense1.T.copy()), "C07/assembly/not-symmetric-zero-diagonal", "dense matrix not symmetric / zero diagonal", w)
             files = []
             ok = True
